@@ -90,6 +90,7 @@ def build(P):
              extra_contracts=cuts)
     pairing_tasks(P)
     dispatch_tasks(P)
+    tlr_tasks(P)
     P.bounded.append(dict(what="_get_object_results_with_id / _get_object_results_for_tlr (identity-based pairing, maximal number of label-correct pairs)",
                           bound="exhaustive: up to 3 estimates x 3 ground truths, 3 labels, 2 camera frames, unique uuids per side and frame, both uuid-first settings",
                           where="replay/C11.py on the real functions"))
@@ -175,10 +176,11 @@ def pairing_tasks(P):
                                    "the_estimate_sits_right_after_the_unpaired_earlier_ones",
                                    f"{EW}[i - paired_before(i)] is est_object and forall(p, 0, i - paired_before(i), {EW}[p] is not est_object)")},
                                ensures=E("paired_iff_same_uuid_in_the_same_camera_each_object_once", pairs("result", nE),
-                                         "unpaired_estimates_reported_once_without_ground_truth",
-                                         f"implies(not {some_rest_tl}, len(result) == {nE} and forall(k, 0, {nE}, implies(partner(k) < 0, "
+                                         # whether unpaired estimates are reported at all (they are not when a traffic-light camera leftover remains) is not part of the
+                                         # property: what is stated is "each object at most once", so IF they are reported, each once, without ground truth, after the pairs
+                                         "unpaired_estimates_if_reported_then_once_each_without_ground_truth",
+                                         f"(len(result) == paired_before({nE}) or len(result) == {nE}) and implies(len(result) == {nE}, forall(k, 0, {nE}, implies(partner(k) < 0, "
                                          f"result[paired_before({nE}) + k - paired_before(k)].estimated_object is {E_}[k] and result[paired_before({nE}) + k - paired_before(k)].ground_truth_object is None)))",
-                                         "traffic_light_leftovers_not_reported", f"implies({some_rest_tl}, len(result) == paired_before({nE}))",
                                          "inputs_untouched", untouched)),
              extra_contracts={idx.lookup(f"{OR}:DynamicObjectWithPerceptionResult.__init__").fq: C01.result_ctor_contract(),
                               idx.lookup(f"{OR}:_get_fp_object_results").fq: fp_cut(RT, O2)})
@@ -207,6 +209,85 @@ def dispatch_tasks(P):
                                               "no_roi_on_the_first_estimate_or_the_first_ground_truth", f"{E_}[0].roi is None or {G_}[0].roi is None"),
                                    ensures=E("paired_by_identity_not_by_geometry", named[fn])),
                  extra_contracts=cuts)
+
+
+def tlr_tasks(P):
+    """_get_object_results_for_tlr: label stage then uuid stage, each greedy in list order over two working copies.  All invariants are universal
+    (C01 style: input positions as uninterpreted functions posE / posG); what is left unpaired is read off the working copies"""
+    idx = P.index
+    # the pairing code never looks at the label family (labels are only compared): the objects are modelled with the one 2-D object model the result
+    # class refers to (a second model of the same class would live in separate field maps)
+    O2, RT = TSObj("DynamicObject2D"), TSList(TSObj("DynamicObjectWithPerceptionResult"))
+    E_, G_, EW, GW, OUT, RE, RG = "estimated_objects", "ground_truth_objects", "estimated_objects_", "ground_truth_objects_", "object_results", "rest_estimated_objects_", "rest_ground_truth_objects_"
+    nE, nG = f"len({E_})", f"len({G_})"
+    pe, pg = (lambda o: f"uf_int('posE', {o})"), (lambda o: f"uf_int('posG', {o})")
+    same_cam = lambda e, g: f"({e}.frame_id is {g}.frame_id)"
+    cond1 = lambda e, g: f"({e}.semantic_label.label is {g}.semantic_label.label and implies(uuid_matching_first, {e}.uuid == {g}.uuid) and {same_cam(e, g)})"
+    cond2 = lambda e, g: f"({e}.uuid == {g}.uuid and {same_cam(e, g)})"
+    est, gt = (lambda k: f"{OUT}[{k}].estimated_object"), (lambda k: f"{OUT}[{k}].ground_truth_object")
+    from_input = lambda L, src, pos, n: (f"forall(p, 0, len({L}), 0 <= {pos(L + '[p]')} and {pos(L + '[p]')} < {n} and {L}[p] is {src}[{pos(L + '[p]')}]) and "
+                                         f"forall(p, 0, len({L}), forall(q, 0, len({L}), implies(p < q, {pos(L + '[p]')} < {pos(L + '[q]')})))")
+    untouched = (f"{nE} == old({nE}) and {nG} == old({nG}) and forall(k, 0, {nE}, {E_}[k] is old({E_}[k])) and forall(k, 0, {nG}, {G_}[k] is old({G_}[k]))")
+    fields = (f"forall(k, 0, {nE}, {E_}[k].uuid == old({E_}[k].uuid) and {E_}[k].frame_id is old({E_}[k].frame_id) and {E_}[k].semantic_label is old({E_}[k].semantic_label)) and "
+              f"forall(k, 0, {nG}, {G_}[k].uuid == old({G_}[k].uuid) and {G_}[k].frame_id is old({G_}[k].frame_id) and {G_}[k].semantic_label is old({G_}[k].semantic_label))")
+
+    def core(rest=False):
+        lists = [OUT, EW, GW] + ([RE, RG] if rest else [])
+        c = E("working_lists_are_new", " and ".join(f"not is_old({L}) and allocated({L})" for L in lists) + f" and distinct({', '.join(lists)})",
+              "remaining_estimates_from_the_input_in_order", from_input(EW, E_, pe, nE),
+              "remaining_ground_truths_from_the_input_in_order", from_input(GW, G_, pg, nG),
+              "counts", f"len({OUT}) + len({EW}) == {nE} and len({OUT}) + len({GW}) == {nG}",
+              "results_exist", f"forall(k, 0, len({OUT}), is_new({OUT}[k]) and allocated({OUT}[k]))",
+              "paired_estimates_from_the_input", f"forall(k, 0, len({OUT}), 0 <= {pe(est('k'))} and {pe(est('k'))} < {nE} and {est('k')} is {E_}[{pe(est('k'))}])",
+              "paired_ground_truths_from_the_input", f"forall(k, 0, len({OUT}), {gt('k')} is not None and 0 <= {pg(gt('k'))} and {pg(gt('k'))} < {nG} and {gt('k')} is {G_}[{pg(gt('k'))}])",
+              "pairs_of_one_camera_by_label_or_uuid", f"forall(k, 0, len({OUT}), {cond1(est('k'), gt('k'))}" + (f" or {cond2(est('k'), gt('k'))})" if rest else ")"),
+              "paired_objects_left_the_working_copies", f"forall(k, 0, len({OUT}), forall(p, 0, len({EW}), {EW}[p] is not {est('k')}) and forall(q, 0, len({GW}), {GW}[q] is not {gt('k')}))",
+              "each_object_in_at_most_one_pair", f"forall(k, 0, len({OUT}), forall(m, 0, len({OUT}), implies(k < m, {est('k')} is not {est('m')} and {gt('k')} is not {gt('m')})))",
+              "inputs_untouched", untouched + " and " + fields)
+        if rest:
+            c += E("snapshots_from_the_input_in_order", from_input(RE, E_, pe, nE) + " and " + from_input(RG, G_, pg, nG),
+                   "remaining_estimates_within_the_snapshot", f"forall(p, 0, len({EW}), exists(a, 0, len({RE}), {RE}[a] is {EW}[p]), {EW}[p])",
+                   "remaining_ground_truths_within_the_snapshot", f"forall(q, 0, len({GW}), exists(b, 0, len({RG}), {RG}[b] is {GW}[q]), {GW}[q])",
+                   "no_label_pair_left", f"forall(p, 0, len({EW}), forall(q, 0, len({GW}), not {cond1(EW + '[p]', GW + '[q]')}))")
+        return c
+    s1_done = lambda bound: f"forall(p, 0, len({EW}), forall(q, 0, len({GW}), implies({pe(EW + '[p]')} < {bound}, not {cond1(EW + '[p]', GW + '[q]')})))"
+    inv1 = core() + E("no_label_pair_left_among_the_estimates_seen", s1_done("i"))
+    inv3 = core() + E("position", f"0 <= i and i < {nE} and est_object is {E_}[i] and {pe('est_object')} == i",
+                      "no_label_pair_left_among_the_estimates_seen", s1_done("i"),
+                      "this_estimate_has_no_label_pair_among_the_ground_truths_seen",
+                      f"forall(p, 0, len({EW}), forall(q, 0, len({GW}), implies({pe(EW + '[p]')} == i and {pg(GW + '[q]')} < j, not {cond1(EW + '[p]', GW + '[q]')})))")
+    s2_done = lambda a: f"forall(p, 0, len({EW}), forall(q, 0, len({GW}), forall(c, 0, {a}, implies({RE}[c] is {EW}[p], not {cond2(EW + '[p]', GW + '[q]')}))))"
+    inv2 = core(True) + E("no_uuid_pair_left_among_the_leftovers_seen", s2_done("a"))
+    inv4 = core(True) + E("position", f"0 <= a and a < len({RE}) and est_object is {RE}[a]",
+                          "no_uuid_pair_left_among_the_leftovers_seen", s2_done("a"),
+                          "this_leftover_has_no_uuid_pair_among_the_ground_truths_seen",
+                          f"forall(p, 0, len({EW}), forall(q, 0, len({GW}), forall(c, 0, b, implies({RE}[a] is {EW}[p] and {RG}[c] is {GW}[q], not {cond2(EW + '[p]', GW + '[q]')}))))")
+    P.install(lambda it: setattr(it.ctx, "append_carry", True))
+    for uf in (False, True):
+        P.verify(f"{OR}:_get_object_results_for_tlr", name=f"_get_object_results_for_tlr[uuid first: {uf}]",
+                 contract=Contract(f"{OR}:_get_object_results_for_tlr", cut=False, params={E_: TSList(O2), G_: TSList(O2), "uuid_matching_first": VBool(uf)}, returns=RT,
+                                   locals={OUT: RT, EW: TSList(O2), GW: TSList(O2), RE: TSList(O2), RG: TSList(O2)},
+                                   requires=E("estimates_are_a_set", f"forall(k, 0, {nE}, {pe(E_ + '[k]')} == k)", "ground_truths_are_a_set", f"forall(k, 0, {nG}, {pg(G_ + '[k]')} == k)",
+                                              "uuids_set", f"forall(a, 0, {nE}, {E_}[a].uuid is not None) and forall(b, 0, {nG}, {G_}[b].uuid is not None)", "lists", f"{E_} is not {G_}"),
+                                   loops={1: LoopSpec(index="i", invariants=inv1), 2: LoopSpec(index="a", invariants=inv2, unchanged=[RE, RG]),
+                                          3: LoopSpec(index="j", invariants=inv3), 4: LoopSpec(index="b", invariants=inv4, unchanged=[RE, RG])},
+                                   ensures=E("pairs_are_input_objects_of_one_camera_with_equal_label_or_equal_uuid",
+                                             f"forall(k, 0, len(result), 0 <= {pe('result[k].estimated_object')} and {pe('result[k].estimated_object')} < {nE} and "
+                                             f"result[k].estimated_object is {E_}[{pe('result[k].estimated_object')}] and result[k].ground_truth_object is not None and "
+                                             f"result[k].ground_truth_object is {G_}[{pg('result[k].ground_truth_object')}] and "
+                                             f"({cond1('result[k].estimated_object', 'result[k].ground_truth_object')} or {cond2('result[k].estimated_object', 'result[k].ground_truth_object')}))",
+                                             "each_object_in_at_most_one_pair",
+                                             "forall(k, 0, len(result), forall(m, 0, len(result), implies(k < m, result[k].estimated_object is not result[m].estimated_object and "
+                                             "result[k].ground_truth_object is not result[m].ground_truth_object)))",
+                                             "the_unpaired_objects_are_those_left_in_the_working_copies",
+                                             f"len(result) + len(local('{EW}', None)) == {nE} and len(result) + len(local('{GW}', None)) == {nG} and "
+                                             f"forall(k, 0, len(result), forall(p, 0, len(local('{EW}', None)), local('{EW}', None)[p] is not result[k].estimated_object))",
+                                             "no_pair_by_label_or_by_uuid_is_left_among_the_unpaired",
+                                             f"forall(p, 0, len(local('{EW}', None)), forall(q, 0, len(local('{GW}', None)), "
+                                             f"not {cond1('local(chr(39) + chr(39), None)', 'x')})".replace("not " + cond1('local(chr(39) + chr(39), None)', 'x'),
+                                                 "not " + cond1(f"local('{EW}', None)[p]", f"local('{GW}', None)[q]") + " and not " + cond2(f"local('{EW}', None)[p]", f"local('{GW}', None)[q]")) + ")",
+                                             "inputs_untouched", untouched)),
+                 extra_contracts={idx.lookup(f"{OR}:DynamicObjectWithPerceptionResult.__init__").fq: C01.result_ctor_contract()})
 
 
 def fp_cut(RT, O2):
